@@ -62,6 +62,7 @@ func init() {
 	extendProp("C20", "(R20.9) every load through an optional scalar pointer (*int32 weight, *string traffic, …) in the conversion functions is dominated by a nil test of that pointer.", r7C20)
 	extendProp("C18", "(R18.12) Finalize of the partition-style and blue-green control planes returns nil only as the result of the workload controller's Finalize, or as IgnoreNotFound of the workload lookup.", r7C18)
 	importProp("C05", "C18", map[string]string{"R18.12": "R5.17"}, "(R5.17 = C18 R18.12) every exit releases the workload the release claimed.")
+	extendProp("C17", "(R17.13) getReplicaSetsForDeployment queries the ReplicaSet lister with the selector built from spec.selector (the template labels may change from one revision to the next; the selector cannot).", r7C17)
 	extendProp("C08", "(R8.10) both admission handlers answer 'this workload is not selected by the webhook configuration' only after every entry and rule was examined (or the entry's selector cannot be parsed): the first entry whose rule matches does not decide alone.", r6C08)
 }
 
@@ -2009,5 +2010,34 @@ func r7C18(c *Ctx) {
 		}
 		c.Ob("R18.12", shortName(name)+"#finalize-or-gone", fn.Pos(), n > 0 && bad == "", "nil is answered only by the workload controller's Finalize or for a workload that is not found",
 			ifs(bad != "", bad+": Initialize claims the workload whatever its size, so a shortcut here (no replicas, …) lets the BatchRelease complete and lose its finalizer while the workload keeps the control annotation and the partition")+ifs(n == 0, "call of the workload controller's Finalize not found"))
+	}
+}
+
+// ---------------------------------------------------------------- C17 R17.13 (round 7)
+
+func r7C17(c *Ctx) {
+	p := c.Prog
+	c.Rule("R17.13", "the Deployment controller lists a Deployment's ReplicaSets by its selector", 1)
+	fn := p.Func("pkg/controller/deployment.DeploymentController.getReplicaSetsForDeployment")
+	if fn == nil {
+		c.Unresolved("R17.13", "DeploymentController.getReplicaSetsForDeployment")
+		return
+	}
+	n := 0
+	for _, ci := range AllCalls(fn) {
+		cc := ci.Common()
+		if !cc.IsInvoke() || cc.Method.Name() != "List" || len(cc.Args) < 1 {
+			continue
+		}
+		n++
+		sel := cc.Args[len(cc.Args)-1]
+		bySelector := SliceHasDeep(sel, MField("Spec", "Selector")) || SliceHas(sel, MField("Selector"))
+		byTemplate := SliceHas(sel, MField("Template", "ObjectMeta", "Labels")) || SliceHas(sel, MField("Template", "Labels")) || SliceHas(sel, MField("Labels"))
+		ok := bySelector && !byTemplate
+		c.Ob("R17.13", "getReplicaSetsForDeployment#by-selector", ci.Pos(), ok, "the lister is queried with the Deployment's selector",
+			ifs(!ok, "the label restriction does not come from spec.selector"+ifs(byTemplate, " but from the pod template's labels")+": a release that changes a template label outside the selector hides every old ReplicaSet from the controller — the new ReplicaSet is taken for the only one and scaled to the full size in one sync, past partition and maxSurge, and the old ones are never scaled down"))
+	}
+	if n == 0 {
+		c.Unresolved("R17.13", "getReplicaSetsForDeployment: lister List call")
 	}
 }
